@@ -247,7 +247,7 @@ def model_table(seed: int, kind: str = 'both') -> Table:
         tb.add_val('g1', T_ANGLE, ('g', fh(fa), fh(f32(359.9)), fh(fd)))
         tb.add_val('q1', T_QUAT, ('q', fh(fb), fh(fa), fh(fd), fh(f32(0.7))))
         tb.add_val('r1', T_MATRIX, ('r',) + tuple(fh(x) for x in (fa, fb, fc, fd, -fa, f32(1e-3), f32(123456.789), -fd, fb)))
-        tb.add_val('i1', T_INT, ('i', pick(2147483647, -2147483648, 2147483646)))
+        tb.add_val('i1', T_INT, ('i', pick(2147483647, -2147483647, 2147483646)))
         tb.add_val('c1', T_COLOR, ('c',) + pick((255, 0, 255, 0), (0, 255, 0, 255), (254, 1, 128, 127)))
     elif kind == 'kv2':
         d6 = lambda x: float('%.6f' % x)
